@@ -371,8 +371,28 @@ def run(ck):
             ck.violation({"kind": "the direct call did not receive the argument values verbatim (harness premise, C02)",
                           "arguments": cases[k][1], "extra_variables": cases[k][0], "received": res[k][3], "seed": ck.seed,
                           "wire": impl_line(cases[k][0], cases[k][1])})
+        # alias HISTORY: alias base -> capture A ; alias derived -> base B ; unalias base ; alias base -> capture C ; derived x..
+        # must reach the command exactly like the direct `base B x..` at that moment: [C, B, x..] (safe values only: the
+        # re-serialisation classes are the subject of the streams above)
+        ah_words = ["A", "B", "C", "x", "yy", "a b", "2.0", "k=v", "-f", "é"]
+        ah = []
+        for _ in range(400 if thorough else 60):
+            ah.append([rng.choice(ah_words) for _ in range(rng.randint(4, 6))])
+        ah_out = ck.impl(["AH\t-\t%s" % enc_list(a) for a in ah])
+        for a, o in zip(ah, ah_out):
+            want = expected([a[2], a[1]] + a[3:])
+            got = o.split(" ")
+            if got != [want, want]:
+                found = True
+                if len(ck.violations) < 5:
+                    ck.violation({"kind": "alias history: an alias defined on top of an alias that was removed and defined again does "
+                                          "not pass the arguments of the direct invocation",
+                                  "script": ["alias base9 capture %s" % a[0], "alias derived9 base9 %s" % a[1], "unalias base9",
+                                             "alias base9 capture %s" % a[2], "derived9 " + " ".join(a[3:])],
+                                  "expected (direct call `base9 %s ..`)" % a[1]: want, "received (direct, through the alias chain)": got,
+                                  "theorems": ["C09_roundtrip"], "seed": ck.seed, "wire": "AH\t-\t%s" % enc_list(a)})
         ck.coverage.update({
-            "evaluations": len(cases) * 7 + len(pcases) * 20,
+            "evaluations": len(cases) * 7 + len(pcases) * 20 + len(ah) * 2,
             "cases": len(cases),
             "in_domain_cases": n_dom,
             "in_domain_cases_outside_the_simple_syntactic_classes": n_beyond_simple,
